@@ -302,8 +302,17 @@ pub fn gen_html(s: &mut Src, max_tokens: usize) -> String {
         out.push_str(&gen_doctype(s));
     }
     for _ in 0..n {
-        match s.weighted(&[40, 22, 16, 4, 2, 2, 3, 3, 1]) {
+        match s.weighted(&[40, 22, 16, 4, 2, 2, 3, 3, 1, 1]) {
             8 => gen_select_block(s, &mut out),
+            9 => {
+                // the "ignore a line feed that is the next token" rule x every kind of next token
+                out.push_str(*s.pick(&["<pre>", "<listing>", "<textarea>", "<PRE x=y>", "<div><pre>", "<table><pre>"]));
+                out.push_str(*s.pick(&[
+                    "", "<!--c-->", "<!DOCTYPE html>", "<!doctype>", "\0", "&#10;", "&#13;", "\r", "<b>", "</b>", "</x>", " ", "<![CDATA[x]]>",
+                    "<!-->", "</>", "<?pi?>", "&amp;",
+                ]));
+                out.push_str(*s.pick(&["\n", "\nx", "\n\n", "\r\n", "\n</pre>", "x\n"]));
+            },
             0 => {
                 // start tag
                 let name = if s.chance(40) && !open.is_empty() {
